@@ -199,7 +199,6 @@ class Future(FutureBase):
             self.set_value(self._value_provider())
         except Exception as error:
             self.set_error(error)
-            raise
 
 
 class ConstFuture(FutureBase):
